@@ -68,6 +68,9 @@ def probes_on(model, r, names, stats, report):
                                 if not (close_v(gained, recd) and close_v(recd, gave)):
                                     report(f"push of {y} over {kind} {src}->{dst}: the sender gave up {MN.fmt(gave)}, the arc recorded "
                                            f"{MN.fmt(recd)}, the receiver's stores gained {MN.fmt(gained)}", (direction, kind, src, dst, "moved"), "C04")
+                        for gap in MN.queue_ledger_gaps(store_end, names, close_v):
+                            for pid_ in ("C03", "C11"):
+                                report(f"after a {direction} of {y} over {kind} {src}->{dst}: {gap}", (direction, kind, src, dst, "ledger"), pid_)
                     except Exception as ex:
                         report(f"{direction} probe over {kind} {src}->{dst} raised {type(ex).__name__}: {ex}", (direction, kind, src, dst, "raised"), "C07")
                         continue
@@ -105,7 +108,7 @@ def close_v(a, b):
 
 
 def run(rep, thorough, pid="C07"):
-    n = 400 if thorough else 60
+    n = 400 if thorough else (150 if pid in ("C03", "C04", "C11") else 60)
     stats = {"models": 0, "probes": 0, "by_class": {}, "violations": 0}
     seen = {}
     stats["after_reinit"] = 0
